@@ -54,9 +54,11 @@ CLAIMED = {
     'C38': dict(
         text='calculate_even_genome_partitioning.calc_parts verified for every contig length >= 1 and interval size >= 1: the inclusive intervals start at base 1, '
         'are adjacent and non-empty, end at the contig length and satisfy end - start <= interval_size (loop invariant, nonlinear ceil facts discharged by z3). '
-        'Merge plan: the selection statements of _step_vdses (first bin, one top-up iteration) and _step_gvcfs are verified as fragments - what is taken and what stays split what was there (take ++ rest == old per bin, other bins untouched, between 1 and branch_factor datasets); the intermediate path prefix of a resumed combiner is fresh (AST). save/load of the plan and termination are listed undecided.',
+        'Merge plan: the selection statements of _step_vdses (first bin, one top-up iteration) and _step_gvcfs are verified as fragments - what is taken and what stays split what was there (take ++ rest == old per bin, other bins untouched, between 1 and branch_factor datasets); the intermediate path prefix of a resumed combiner is fresh (AST). ' \
+        'Where the merged datasets go (wave 4): the tails of _step_gvcfs / _step_vdses from the statement that may write the final output are verified - the final output is written only when no GVCF and no dataset is pending (the real `finished` property is executed), exactly once, from the dataset(s) of this step; otherwise every imported dataset is filed exactly once at the end of one bin >= 1 with its sample count, the merged dataset is appended to a bin strictly above the bin the merge started from, and pending datasets are kept in order (defaultdict reads modelled, checked on __init__). step() runs exactly one step function, each only where its selection contract applies, and advances the job number of an unfinished plan; run() saves before every step and after the last (AST). ' \
+        'The step parameters: __init__ rejects branch_factor < 2 and gvcf_batch_size < 1, the resume path of new_combiner (maybe_load_from_saved_path, with the real property setter executed if it goes through it) returns a plan with batch size >= 1, branch factor >= 2 and the saved pending inputs unchanged; the closed set of writers of the two parameters is an AST obligation. The public gvcf_batch_size setter is under contract; its clause "batch size stays >= 1" FAILS for more than 150000 import intervals (known finding, replayed). Encoder/Decoder of the plan and termination of run() are listed undecided.',
         note=COMMON_NOTE + 'math.ceil(a / b) on ints treated as the exact rational ceiling (valid below 2**53); hl.Interval/hl.Locus are value constructors; '
-        'the @typecheck decorator is dropped by extraction. Plan save/load (JSON encoder/decoder), engine calls (combine_variant_datasets, import_gvcfs) and termination of run() are NOT covered.',
+        'the @typecheck decorator is dropped by extraction. Engine / file-system / logging calls are assumed to leave the combiner plan alone (their results are opaque); VDSMetadata is a free pair constructor (NamedTuple, checked); new_combiner is assumed to be called with branch_factor >= 2 and gvcf_batch_size >= 1 on the resume path too (only __init__ validates them). Plan save/load (JSON encoder/decoder), engine calls (combine_variant_datasets, import_gvcfs) and termination of run() (needs: a non-final dataset step merges at least two datasets) are NOT covered.',
         technique='loop-invariant contract on real source, pyvc -> z3',
         design_ref='7/C38',
     ),
